@@ -65,6 +65,12 @@ double Round(double N, unsigned int digits)
 	// Round the prefactor
 	prefactor = std::floor(prefactor * pow(10.0, digits - 1) + 0.5);
 	prefactor = prefactor * pow(10.0, -1.0 * digits + 1);
+	// Rounding up can carry into the next decade (9.99... -> 10.0). Normalize, such that the result does not depend on the way it was reached.
+	if(prefactor >= 10.0)
+	{
+		prefactor /= 10.0;
+		DecimalPower += 1.0;
+	}
 
 	return sign * prefactor * pow(10, DecimalPower);
 }
